@@ -15,7 +15,7 @@ func hx(s string) string { return fw.Hx(s) }
 var versionPool = []string{"0.9", "1.0", "1.0.0", "1.1", "1.5.post1", "2.0a1", "2.0rc1", "2.0", "2.1.dev1", "2.1", "3.0b2", "3.0", "1!0.1", "2.0.0", "bogus"}
 var versionWeights = []int{3, 6, 1, 5, 1, 2, 3, 6, 2, 4, 2, 5, 1, 1, 1}
 var boundPool = []string{"0.9", "1.0", "1.1", "2.0a1", "2.0rc1", "2.0", "2.1.dev1", "2.1", "3.0b2", "3.0", "1.5.post1"}
-var namePool = []string{"a", "b", "c", "d", "e", "f", "g", "setuptools", "Setuptools", "z"}
+var namePool = []string{"a", "b", "c", "d", "e", "f", "g", "h", "i", "k", "setuptools", "Setuptools", "z"}
 var extraPool = []string{"x", "y", "X"}
 
 func wpick(r *rand.Rand, w []int) int {
@@ -306,6 +306,8 @@ func smallUniverse(idx int) *uni {
 	return u
 }
 
+const modelRoundCap = 3000
+
 type job struct {
 	u     *uni
 	roots [][2]string
@@ -319,8 +321,13 @@ func emit(c *fw.Ctx, u *uni, rn, rv, tag string) {
 		c.Count("skipped.too-many-extras")
 		return
 	}
-	if resolveReal(u, rn, rv) == "timeout" {
-		c.Count("skipped.timeout")
+	// The model has no clock. Universes on which the MODEL needs many rounds are not
+	// emitted (the real code may legitimately hit the deadline there); everything
+	// else is, so a real-code hang on a universe the model finishes quickly shows
+	// up as `timeout` vs the model's result.
+	so := runSimCapped(u, rn, rv, modelRoundCap)
+	if so.rounds >= modelRoundCap {
+		c.Count("skipped.model-needs-many-rounds")
 		return
 	}
 	line := u.line("resolve", rn, rv)
@@ -333,6 +340,11 @@ func emit(c *fw.Ctx, u *uni, rn, rv, tag string) {
 		c.Count("result.graph-error")
 	default:
 		c.Count("result.graph")
+	}
+	if res == "timeout" {
+		c.Check("T", i)
+	} else {
+		c.Tally(1)
 	}
 	cd, ok := loadCase(line, res)
 	if !ok {
@@ -347,7 +359,6 @@ func emit(c *fw.Ctx, u *uni, rn, rv, tag string) {
 	if strings.Contains(cres, "route=1") {
 		c.Count("hyp.route-not-closed")
 	}
-	so := runSim(u, rn, rv)
 	if so.result != res {
 		c.Count("sim.disagrees-with-go")
 		c.Note("Go port of the model disagrees with the real code on: " + line)
@@ -377,14 +388,19 @@ func emit(c *fw.Ctx, u *uni, rn, rv, tag string) {
 	}
 	for _, o := range oracles {
 		if cd.verdict(o) != "" {
+			if classify(o, []string{line}, []string{res}) == "" {
+				// an unexplained failure: report the shrunk universe first
+				su := shrinkUniverse(u, rn, rv, o)
+				if k, _ := c.Op(su.line("resolve", rn, rv)); k != i {
+					c.Op(su.line("classify", rn, rv))
+					c.Check(o, k)
+					c.Count("shrunk-failures")
+				}
+			}
 			c.Check(o, i)
 		} else {
 			c.Tally(1)
 		}
-	}
-	if d := cd.es(); d != "" {
-		c.Count("diagnostic.edge-not-a-requirement-of-its-source")
-		c.Sample("ES " + d + " :: " + line)
 	}
 }
 
@@ -399,7 +415,7 @@ func classify(oracle string, ops, res []string) string {
 			}
 		}
 	}
-	if (oracle != "P2" && oracle != "P3") || len(ops) != 1 {
+	if (oracle != "P2" && oracle != "P3" && oracle != "ES") || len(ops) != 1 {
 		return ""
 	}
 	f := strings.Fields(ops[0])
@@ -425,7 +441,7 @@ func classify(oracle string, ops, res []string) string {
 
 func run(c *fw.Ctx) {
 	// small-scope stream
-	nSmall := c.N(400, 6000)
+	nSmall := c.N(400, 10000)
 	total := 3 * 3 * 3 * 5 * 5 * 5 * 5 * 5 * 5 * 5 // upper bound of the index space
 	stride := total/nSmall + 1
 	var jobs []job
@@ -440,7 +456,7 @@ func run(c *fw.Ctx) {
 		jobs = append(jobs, job{u, roots, "small"})
 	}
 	// random stream
-	nRand := c.N(1300, 30000)
+	nRand := c.N(1300, 75000)
 	for k := 0; k < nRand; k++ {
 		r := c.Rng
 		o := genOpts{nPkg: 3 + r.Intn(6), maxVers: 1 + r.Intn(6), maxReqs: 2 + r.Intn(3)}
@@ -456,6 +472,10 @@ func run(c *fw.Ctx) {
 		}
 		o.gadget = r.Intn(3) == 0
 		o.friendly = r.Intn(5) < 3
+		if r.Intn(4) == 0 {
+			// larger, mostly satisfiable universes: deeper graphs
+			o.nPkg, o.maxVers, o.maxReqs, o.friendly, o.gadget = 6+r.Intn(5), 1+r.Intn(4), 3+r.Intn(2), true, r.Intn(4) == 0
+		}
 		o.route = r.Intn(25) == 0
 		o.late = r.Intn(25) == 0
 		u := genUniverse(r, o)
